@@ -32,6 +32,10 @@ LAYOUTS = {
                              "logs/NetBSD9.3/x86_64/lastlog", None),
     "openbsd_x86_utmp": (304, 296, 8, None, 0, [("ut_line", 0, 8), ("ut_name", 8, 32), ("ut_host", 40, 256)], "wtmp",
                          "logs/OpenBSD7.4/x86_64/wtmp", None),
+    # FreeBSD's in-memory struct utmpx (the on-disk utx.* files are variable-length and not this layout; no shipped file
+    # has it, so the template record is synthetic: USER_PROCESS, id "ab12", pid 4321)
+    "freebsd_x8664_utmpx": (280, 8, 8, 16, 8, [("ut_user", 36, 32), ("ut_line", 68, 16), ("ut_host", 84, 128)], "utmpx",
+                            None, 0),
     "openbsd_x86_lastlog": (272, 0, 8, None, 0, [("ll_line", 8, 8), ("ll_host", 16, 256)], "lastlog",
                             "logs/OpenBSD7.4/x86_64/lastlog", None),
 }
@@ -45,6 +49,15 @@ def template(name):
         return _TEMPLATES[name]
     size = LAYOUTS[name][0]
     rel = LAYOUTS[name][7]
+    if rel is None:
+        r = bytearray(size)
+        struct.pack_into("<h", r, 0, 7)
+        struct.pack_into("<qq", r, 8, 1_600_000_000, 0)
+        r[24:28] = b"ab12"
+        struct.pack_into("<i", r, 32, 4321)
+        r[36:38], r[68:70], r[84:86] = b"zu", b"zl", b"zh"      # non-empty so each value can be located in the printed line
+        _TEMPLATES[name] = bytes(r)
+        return _TEMPLATES[name]
     data = open(os.path.join(REPO, rel), "rb").read()
     rec = None
     for off in range(0, len(data) - size + 1, size):
